@@ -258,6 +258,7 @@ func (ev *Ev) call(name string, args []interface{}) (interface{}, error) {
 			ev.amb("length of implementation-specific text")
 			return nil, nil
 		case map[string]interface{}:
+			ev.count("length.object")
 			return float64(len(t)), nil
 		}
 		items, _, _ := elems(args[0])
